@@ -65,6 +65,23 @@ CLAIMED = {
         "coefficients, mol labels; bag equality where ids are not claimed); plus random networks up to 8 species / 10 reactions with multi-digit coefficients.",
    ref="DESIGN.md §3 C16",
    technique="TLA+ theory of network views + TLC-enumerated networks replayed into the code + TLC judging recorded round trips"),
+ "C07": dict(
+   text="MatcherSession.tla models query histories of engines with different attribute selections sharing one histogram cache; TLC proves AnswerIsPure for the "
+        "contract (cache keyed by object and selection) and must find the counterexample for a cache keyed by the object only. Conformance: sessions of 60+ "
+        "queries (isomorphic in both argument orders, get_mappings, graph_isomorphism, find_graph_isomorphism, three boolean subgraph tests, every filter "
+        "flag on/off, induced and monomorphism mode, two attribute selections) run in random order on SHARED networkx objects built from all TLC-enumerated "
+        "graph pairs <=2 nodes (exhaustive), sampled pairs <=3/4 nodes, random pairs <=8 nodes with relabelled copies and one-edit neighbours, plus targeted "
+        "query histories; TLC judges every answer against LGraph (IsosHostRule, IsIso, Embeddings, Monos) and checks filter invariance.",
+   ref="DESIGN.md §3 C07",
+   technique="TLA+ state machine of query histories model-checked by TLC + TLC judging recorded query sessions of the real engines"),
+ "C08": dict(
+   text="Families of networkx objects (a TLC-enumerated graph, relabelled copies with shuffled insertion orders, one-edit look-alikes, another graph) are "
+        "canonicalised by every back-end (generic, wl, morgan, nauty; wrapper hash and canonical_signature; NautyCanonicalizer directly; SynGraph equality); "
+        "TLC verifies faithfulness through the recovered relabelling (LGraph!Relabel), determinism, soundness (equal signatures => IsIso) and, for the exact "
+        "back-end, invariance (IsIso => equal signature and identical canonical graph; wrapper equality <=> IsIso). All graphs <=3 nodes exhaustively, 4 (5 "
+        "thorough) nodes, symmetric families (cycles, K23, K33, cube, C3+C4 traps) and random graphs <=9 nodes.",
+   ref="DESIGN.md §3 C08",
+   technique="TLA+ theory (relabelling, isomorphism) + TLC-enumerated graphs replayed into the code + TLC judging recorded canonical forms/signatures"),
 }
 
 NOT_YET = "check not built yet (work in progress; planned with the same TLA+/TLC technique, see DESIGN.md §3)"
